@@ -7,6 +7,8 @@ import (
 	"fmt"
 	"sort"
 	"strings"
+	"sync"
+	"sync/atomic"
 	"time"
 
 	"golang.org/x/tools/go/ssa"
@@ -635,51 +637,203 @@ type HarnessOutcome struct {
 	Elapsed  time.Duration
 }
 
+// Explore enumerates every path of the harness. With workers > 1 the decision tree is split between workers: each
+// finished path hands the untried alternatives of its new decisions to a shared queue as fresh prefixes.
 func (h *HarnessRun) Explore() *HarnessOutcome {
-	start := time.Now()
-	var prefix []Decision
-	complete := true
-	for {
-		if time.Now().After(h.Deadline) {
-			h.noteError("deadline exceeded before exploration finished")
-			complete = false
-			break
-		}
-		if h.MaxPaths > 0 && h.Stats.Paths >= h.MaxPaths {
-			h.noteError(fmt.Sprintf("path limit %d reached before exploration finished", h.MaxPaths))
-			complete = false
-			break
-		}
-		ex := &Exec{H: h, decisions: prefix, globals: map[*ssa.Global]*Loc{}, pkgInit: map[*ssa.Package]int{},
-			wg: map[*Loc]*wgState{}, sideTable: map[interface{}]interface{}{}}
-		h.Solver.Reset()
-		h.Stats.Paths++
-		fatal := ex.runPath()
-		h.Stats.Steps += ex.steps
-		if fatal {
-			complete = false
-			break
-		}
-		// backtrack
-		ds := ex.decisions
-		i := len(ds) - 1
-		for i >= 0 && len(ds[i].Alts) == 0 {
-			i--
-		}
-		if i < 0 {
-			break
-		}
-		nd := make([]Decision, i+1)
-		copy(nd, ds[:i+1])
-		nd[i] = Decision{Chosen: ds[i].Alts[0], Alts: ds[i].Alts[1:], Tag: ds[i].Tag}
-		prefix = nd
+	return h.ExploreParallel(1, nil)
+}
+
+type prefixQueue struct {
+	mu      sync.Mutex
+	cond    *sync.Cond
+	items   [][]Decision
+	active  int
+	stopped bool
+}
+
+func (q *prefixQueue) pop() ([]Decision, bool) {
+	q.mu.Lock()
+	defer q.mu.Unlock()
+	for len(q.items) == 0 && q.active > 0 && !q.stopped {
+		q.cond.Wait()
 	}
-	h.Stats.Queries += h.Solver.Queries
-	h.Stats.Sat += h.Solver.NSat
-	h.Stats.Unsat += h.Solver.NUnsat
-	h.Stats.Unknown += h.Solver.NUnknown
-	h.Stats.SolverTime += h.Solver.Time
+	if q.stopped || len(q.items) == 0 {
+		return nil, false
+	}
+	// depth-first: take the most recently added prefix
+	p := q.items[len(q.items)-1]
+	q.items = q.items[:len(q.items)-1]
+	q.active++
+	return p, true
+}
+
+func (q *prefixQueue) done(newItems [][]Decision, stop bool) {
+	q.mu.Lock()
+	q.items = append(q.items, newItems...)
+	q.active--
+	if stop {
+		q.stopped = true
+	}
+	q.mu.Unlock()
+	q.cond.Broadcast()
+}
+
+func (h *HarnessRun) ExploreParallel(workers int, newSolver func() (*Solver, error)) *HarnessOutcome {
+	start := time.Now()
+	if workers < 1 {
+		workers = 1
+	}
+	q := &prefixQueue{items: [][]Decision{nil}}
+	q.cond = sync.NewCond(&q.mu)
+	shards := []*HarnessRun{h}
+	for w := 1; w < workers; w++ {
+		sh := *h
+		sh.Stats = Stats{}
+		sh.Findings = map[string]*Finding{}
+		sh.Reached = map[string]bool{}
+		sh.Assumes = map[string]bool{}
+		sh.FuncsSeen = map[string]bool{}
+		sh.Stubs = map[string]bool{}
+		sh.AssertIDs = map[string]int{}
+		sh.KnownSeen = map[string]string{}
+		sh.Samples, sh.Errors, sh.PathSamples, sh.Disagree = nil, nil, nil, nil
+		sh.SharedGlobals, sh.SharedInit = nil, nil
+		sh.CrossCheck = nil
+		s, err := newSolver()
+		if err != nil {
+			break
+		}
+		sh.Solver = s
+		shards = append(shards, &sh)
+	}
+	var totalPaths int64
+	var wg sync.WaitGroup
+	complete := true
+	var cmu sync.Mutex
+	for _, sh := range shards {
+		wg.Add(1)
+		go func(sh *HarnessRun) {
+			defer wg.Done()
+			for {
+				prefix, ok := q.pop()
+				if !ok {
+					return
+				}
+				stop := false
+				if time.Now().After(sh.Deadline) {
+					sh.noteError("deadline exceeded before exploration finished")
+					stop = true
+				}
+				if sh.MaxPaths > 0 && atomic.LoadInt64(&totalPaths) >= int64(sh.MaxPaths) {
+					sh.noteError(fmt.Sprintf("path limit %d reached before exploration finished", sh.MaxPaths))
+					stop = true
+				}
+				if stop {
+					cmu.Lock()
+					complete = false
+					cmu.Unlock()
+					q.done(nil, true)
+					return
+				}
+				ex := &Exec{H: sh, decisions: prefix, globals: map[*ssa.Global]*Loc{}, pkgInit: map[*ssa.Package]int{},
+					wg: map[*Loc]*wgState{}, sideTable: map[interface{}]interface{}{}}
+				sh.Solver.Reset()
+				sh.Stats.Paths++
+				atomic.AddInt64(&totalPaths, 1)
+				fatal := ex.runPath()
+				sh.Stats.Steps += ex.steps
+				var next [][]Decision
+				if !fatal {
+					ds := ex.decisions
+					for i := len(ds) - 1; i >= len(prefix); i-- {
+						for k := len(ds[i].Alts) - 1; k >= 0; k-- {
+							nd := make([]Decision, i+1)
+							copy(nd, ds[:i])
+							nd[i] = Decision{Chosen: ds[i].Alts[k], Tag: ds[i].Tag}
+							for j := 0; j < i; j++ {
+								nd[j].Alts = nil
+							}
+							next = append(next, nd)
+						}
+					}
+					// deepest alternatives last, so that pop() continues depth-first
+					for l, r := 0, len(next)-1; l < r; l, r = l+1, r-1 {
+						next[l], next[r] = next[r], next[l]
+					}
+				} else {
+					cmu.Lock()
+					complete = false
+					cmu.Unlock()
+				}
+				q.done(next, fatal)
+			}
+		}(sh)
+	}
+	wg.Wait()
+	// merge shards into h
+	for _, sh := range shards {
+		sh.Stats.Queries += sh.Solver.Queries
+		sh.Stats.Sat += sh.Solver.NSat
+		sh.Stats.Unsat += sh.Solver.NUnsat
+		sh.Stats.Unknown += sh.Solver.NUnknown
+		sh.Stats.SolverTime += sh.Solver.Time
+		if sh == h {
+			continue
+		}
+		sh.Solver.Close()
+		h.Stats.add(&sh.Stats)
+		for k, f := range sh.Findings {
+			if _, dup := h.Findings[k]; !dup {
+				h.Findings[k] = f
+			}
+		}
+		for k := range sh.Reached {
+			h.Reached[k] = true
+		}
+		for k := range sh.Assumes {
+			h.Assumes[k] = true
+		}
+		for k := range sh.FuncsSeen {
+			h.FuncsSeen[k] = true
+		}
+		for k := range sh.Stubs {
+			h.Stubs[k] = true
+		}
+		for k, v := range sh.AssertIDs {
+			h.AssertIDs[k] += v
+		}
+		for _, e := range sh.Errors {
+			h.noteError(e)
+		}
+		if len(h.Samples) < 6 {
+			h.Samples = append(h.Samples, sh.Samples...)
+		}
+		if len(h.PathSamples) < 3 {
+			h.PathSamples = append(h.PathSamples, sh.PathSamples...)
+		}
+		h.Disagree = append(h.Disagree, sh.Disagree...)
+	}
 	return &HarnessOutcome{Run: h, Complete: complete && len(h.Errors) == 0, Elapsed: time.Since(start)}
+}
+
+func (s *Stats) add(o *Stats) {
+	s.Paths += o.Paths
+	s.Decisions += o.Decisions
+	s.Forks += o.Forks
+	s.Obligations += o.Obligations
+	s.TrivialObl += o.TrivialObl
+	s.Discharged += o.Discharged
+	s.Violated += o.Violated
+	s.UnknownObl += o.UnknownObl
+	s.Steps += o.Steps
+	s.Queries += o.Queries
+	s.Sat += o.Sat
+	s.Unsat += o.Unsat
+	s.Unknown += o.Unknown
+	s.SolverTime += o.SolverTime
+	s.CVC5IntCalls += o.CVC5IntCalls
+	s.Infeasible += o.Infeasible
+	s.PanicChecks += o.PanicChecks
 }
 
 // runPath runs one path; returns true when exploration must stop (fatal/inconclusive).
